@@ -49,12 +49,49 @@ func stripBase(d string) string {
 	return strings.Join(out, " ")
 }
 
+// staleSeen is set when a serialisation turned out to depend on what an earlier packet left in the (reused) buffer;
+// safeExec turns it into the op's verdict
+var staleSeen string
+
+// dirtyBuffer is a serialise buffer as a connection holds it after earlier packets: gopacket's Clear() only resets the
+// indices, PrependBytes / AppendBytes hand back whatever the backing array holds
+func dirtyBuffer(fill byte) gopacket.SerializeBuffer {
+	buf := gopacket.NewSerializeBuffer()
+	if b, err := buf.PrependBytes(700); err == nil {
+		for i := range b {
+			b[i] = fill
+		}
+	}
+	if b, err := buf.AppendBytes(700); err == nil {
+		for i := range b {
+			b[i] = fill
+		}
+	}
+	buf.Clear()
+	return buf
+}
+
+// serialize runs gopacket.SerializeLayers into a fresh buffer AND into buffers holding stale bytes (FFh, A5h); the
+// bytes must not depend on the buffer's history. Returns the reused-buffer result.
 func serialize(ls ...gopacket.SerializableLayer) ([]byte, error) {
 	buf := gopacket.NewSerializeBuffer()
 	if err := gopacket.SerializeLayers(buf, serOpts, ls...); err != nil {
 		return nil, err
 	}
-	return append([]byte(nil), buf.Bytes()...), nil
+	fresh := append([]byte(nil), buf.Bytes()...)
+	out := fresh
+	for _, fill := range []byte{0xFF, 0xA5} {
+		d := dirtyBuffer(fill)
+		if err := gopacket.SerializeLayers(d, serOpts, ls...); err != nil {
+			staleSeen = "serialisation fails in a reused buffer although it succeeds in a fresh one"
+			return nil, err
+		}
+		if !bytes.Equal(d.Bytes(), fresh) {
+			staleSeen = fmt.Sprintf("serialised bytes depend on what an earlier packet left in the buffer: fresh %x, reused (filled with %02x) %x", fresh, fill, d.Bytes())
+			out = append([]byte(nil), d.Bytes()...)
+		}
+	}
+	return out, nil
 }
 
 // roundTrip serialises l over inner, decodes into fresh, compares fields and payload, re-serialises.
